@@ -140,11 +140,18 @@ open Model.Rev
 
 /-! ## reference meaning of the absolute target forms (documentation) -/
 
-/-- the revision a branch name denotes: the revision carrying the label, or a revision id -/
+/-- the revision a branch name denotes: the revision carrying the label, or a revision id, or
+    (docs/build/branches.rst: `ae10@head`) the one revision whose id starts with the name;
+    `none` when no or several ids start with it -/
 def branchRev (h : Hist) (b : String) : Option Id :=
   match h.find? (fun r => b ∈ r.labels) with
   | some r => some r.id
-  | none => if b ∈ ids h then some b else none
+  | none =>
+    if b ∈ ids h then some b
+    else if b == "" then none
+    else match (ids h).filter (fun i => i.startsWith b) with
+      | [r] => some r
+      | _ => none
 
 /-- same branch (down-revision lineage): ancestor or descendant through down-revisions -/
 def downLineage (h : Hist) (r x : Id) : Bool := x ∈ downAncSet h [r] || x ∈ downDescSet h [r]
